@@ -1,4 +1,5 @@
 import ReplicatProofs.Lemmas.SymView
+import ReplicatProofs.Lemmas.SymBackend
 /-!
 # C05 — an encrypted repository reveals no plaintext at rest
 
@@ -18,6 +19,15 @@ client-side state (shared cache directory, other repositories, earlier incarnati
 `stale_view_leaks` — the hypothesis is necessary (false of the model AND of any code that lets client state decide the view);
 the harness checks the hypothesis on the real code by running several repositories through one client state and feeding the
 views the real clients had to the model.
+
+Backends.  `run` / `runView` decide per chunk by a lookup in the model's own store: the backend is a faithful map and nobody else
+touches it during a snapshot.  The last four theorems drop that: in `runB` (ReplicatModel/SymBackend.lean) a snapshot is a list of
+events — the next chunk with WHATEVER `exists` answered for it, or a removal of arbitrary objects by somebody else (another
+client's clean / delete, an eventually-consistent store).  `adversarial_backend_public` — secrecy and nonce freshness for every
+such history (it consumes the extracted shapes `Gen.chunkQueuedIsCiphertext` — the producer queues ciphertext for EVERY chunk of an
+encrypted repository — and `Gen.chunkUploadIsQueuedContents` — the worker uploads the queued object); `honest_backend_is_snapshot` / `backend_history_refines` — with truthful answers and no interference this
+is `step` / `runView`; `plaintext_queue_leaks` — the shape is necessary: a producer that may queue a plain chunk (because it
+"knows" the chunk is stored) leaks it as soon as one answer is `False`.
 -/
 namespace Replicat.C05
 open Replicat Replicat.Sym
@@ -163,6 +173,85 @@ theorem stale_view_leaks :
   · exact ⟨(pair prefixChunk (pair (digest (sec 1)) (digest (sec 1))), sec 1), by decide +kernel, rfl, by decide +kernel⟩
   · exact ⟨1, DY.init ⟨(pair prefixChunk (pair (digest (sec 1)) (digest (sec 1))), sec 1), by decide +kernel, Or.inr rfl⟩⟩
 
+/-- **Secrecy whatever the backend answers.**  Every history of client commands (faithful views) in which snapshots run against
+an ARBITRARY backend — each `exists` may answer anything, objects may vanish between any two calls (another client's clean /
+delete, eventual consistency), for any stream (any number of repeats of a chunk): all that is emitted is public, every name is
+keyed, the observer derives no secret atom, no digest of one and no generated key, and no nonce is used twice. -/
+theorem adversarial_backend_public (a : InitArgs) (ha : a.wf) (he : a.encrypted = true) (ops : List (Bool × BOp))
+    (hops : ∀ vo ∈ ops, vo.2.wf) (hv : ∀ vo ∈ ops, vo.1 = true) :
+    (∀ e ∈ writtenB a ops, Public e.1 = true ∧ Public e.2 = true ∧ nameKeyed e.1 = true) ∧
+    (∀ s, ¬ DY (fun t => ∃ e ∈ writtenB a ops, t = e.1 ∨ t = e.2) (sec s)) ∧
+    (∀ s, ¬ DY (fun t => ∃ e ∈ writtenB a ops, t = e.1 ∨ t = e.2) (Term.hash (sec s))) ∧
+    (∀ k, ¬ DY (fun t => ∃ e ∈ writtenB a ops, t = e.1 ∨ t = e.2) (key k)) ∧
+    ((runB a ops).uses.map (·.2)).Nodup := by
+  have hq : writerShape = true := by decide
+  have hi : Inv a.cfg (runB a ops) := by
+    unfold runB
+    rw [hq]
+    exact inv_runB a ha he ops hops hv
+  have hpub : ∀ e ∈ writtenB a ops, Public e.1 = true ∧ Public e.2 = true ∧ nameKeyed e.1 = true := by
+    intro e hmem
+    have := hi.log e hmem
+    exact ⟨this.1, this.2.1, this.2.2.1⟩
+  have hW : ∀ t, (∃ e ∈ writtenB a ops, t = e.1 ∨ t = e.2) → Public t = true := by
+    rintro t ⟨e, hmem, h | h⟩
+    · rw [h]; exact (hpub e hmem).1
+    · rw [h]; exact (hpub e hmem).2.1
+  have hno : ∀ t, Public t = false → ¬ DY (fun t => ∃ e ∈ writtenB a ops, t = e.1 ∨ t = e.2) t := by
+    intro t ht h
+    have := analz_public _ hW t h
+    rw [ht] at this; cases this
+  exact ⟨hpub, fun s => hno _ rfl, fun s => hno _ rfl, fun k => hno _ rfl, hi.usesNodup⟩
+
+/-- **An honest backend is the backend of `step`.**  With truthful answers and no interference the event snapshot is the
+snapshot command of `run` (so the theorems above it speak about the same writer). -/
+theorem honest_backend_is_snapshot (s : St) (user : Nat) (chunks : List Term) (data : Data) :
+    stepB s (.snapshotEv user (honestEvs chunks) data) = step s (.snapshot user chunks data) := by
+  have hq : writerShape = true := by decide
+  unfold stepB
+  rw [hq]
+  exact snapshotEv_honest s user chunks data
+
+/-- a history without event snapshots is the history of `runView` -/
+theorem backend_history_refines (a : InitArgs) (ops : List (Bool × Op)) :
+    runB a (ops.map (fun vo => (vo.1, BOp.plain vo.2))) = runView a ops :=
+  runB_plain _ a ops
+
+/-- **The shape of the producer is necessary** (negation witness).  The same two-event snapshot — one chunk twice, the backend
+answers `False` for the repeat — by a producer that queues the plain chunk (`runBWith false`): the chunk's plaintext is stored
+under the chunk's MAC name and the observer has it; by a producer that queues ciphertext (`runBWith true`) everything is public. -/
+theorem plaintext_queue_leaks :
+    ∃ (a : InitArgs) (ops : List (Bool × BOp)), a.wf ∧ a.encrypted = true ∧ (∀ vo ∈ ops, vo.2.wf) ∧ (∀ vo ∈ ops, vo.1 = true) ∧
+      (∃ e ∈ (runBWith false a ops).log, Public e.2 = false ∧ nameKeyed e.1 = true) ∧
+      (∃ s, DY (fun t => ∃ e ∈ (runBWith false a ops).log, t = e.1 ∨ t = e.2) (sec s)) ∧
+      (∀ e ∈ (runBWith true a ops).log, Public e.2 = true) := by
+  refine ⟨⟨true, pub 10, pub 11, pub 12, sec 100⟩,
+    [(true, .snapshotEv 0 [.chunk (sec 1) none, .chunk (sec 1) (some false)] ⟨1, [], nil⟩)], ?_, rfl, ?_, ?_, ?_, ?_, ?_⟩
+  · exact ⟨rfl, rfl, rfl, rfl⟩
+  · intro vo hvo
+    simp only [List.mem_singleton] at hvo
+    subst hvo
+    trivial
+  · intro vo hvo
+    simp only [List.mem_singleton] at hvo
+    subst hvo
+    rfl
+  · have h : ((runBWith false ⟨true, pub 10, pub 11, pub 12, sec 100⟩
+        [(true, .snapshotEv 0 [.chunk (sec 1) none, .chunk (sec 1) (some false)] ⟨1, [], nil⟩)]).log.any
+          (fun e => !Public e.2 && nameKeyed e.1)) = true := by decide +kernel
+    obtain ⟨e, hmem, hp⟩ := List.any_eq_true.mp h
+    simp only [Bool.and_eq_true, Bool.not_eq_true'] at hp
+    exact ⟨e, hmem, hp.1, hp.2⟩
+  · have h : ((runBWith false ⟨true, pub 10, pub 11, pub 12, sec 100⟩
+        [(true, .snapshotEv 0 [.chunk (sec 1) none, .chunk (sec 1) (some false)] ⟨1, [], nil⟩)]).log.any
+          (fun e => decide (e.2 = sec 1))) = true := by decide +kernel
+    obtain ⟨e, hmem, hp⟩ := List.any_eq_true.mp h
+    exact ⟨1, DY.init ⟨e, hmem, Or.inr (of_decide_eq_true hp).symm⟩⟩
+  · have h : ((runBWith true ⟨true, pub 10, pub 11, pub 12, sec 100⟩
+        [(true, .snapshotEv 0 [.chunk (sec 1) none, .chunk (sec 1) (some false)] ⟨1, [], nil⟩)]).log.all
+          (fun e => Public e.2)) = true := by decide +kernel
+    exact fun e hmem => List.all_eq_true.mp h e hmem
+
 /-- the secrecy statement is about ENCRYPTED repositories only: an unencrypted repository stores the chunk in the clear, and
 `Public` notices (so the theorems above are not vacuous) -/
 example :
@@ -191,6 +280,20 @@ example :
     (writtenView a [(true, k), (true, s1), (true, s2)]).all (fun e => Public e.1 && Public e.2 && nameKeyed e.1) = true ∧
     (writtenView a [(true, k), (true, s1), (false, s2)]).all (fun e => Public e.1 && Public e.2 && nameKeyed e.1) = false ∧
     (runView a [(true, k), (true, s1), (false, s2)]).encrypted = true := by
+  decide +kernel
+
+/-- non-vacuity of the backend theorems: a stream in which one chunk occurs five times; the backend says "absent" for the third
+and fifth occurrence and somebody removes everything before the fourth — five encryptions of the chunk, three uploads of it (each
+a fresh ciphertext under its MAC name), everything emitted public and keyed; the honest schedule uploads it once -/
+example :
+    let a : InitArgs := ⟨true, pub 10, pub 11, pub 12, sec 100⟩
+    let d : Data := ⟨1, [⟨sec 50, [⟨0, 1, 0, 4⟩], Term.hash (sec 60), sec 70⟩], sec 80⟩
+    let evs : List Ev := [.chunk (sec 1) none, .chunk (sec 1) none, .chunk (sec 1) (some false), .vanish [], .chunk (sec 1) (some true),
+      .chunk (sec 1) (some false)]
+    (writtenB a [(true, .snapshotEv 0 evs d)]).length = 6 ∧
+    (writtenB a [(true, .snapshotEv 0 evs d)]).all (fun e => Public e.1 && Public e.2 && nameKeyed e.1) = true ∧
+    (runB a [(true, .snapshotEv 0 evs d)]).uses.length = 8 ∧
+    (writtenB a [(true, .snapshotEv 0 (honestEvs [sec 1, sec 1, sec 1, sec 1, sec 1]) d)]).length = 4 := by
   decide +kernel
 
 end Replicat.C05
